@@ -13,11 +13,12 @@ Families:
             and asyncssh <-> asyncssh.
 """
 
+import asyncio
 from typing import Any, Dict, List, Optional, Tuple
 
 from hypothesis import strategies as st
 
-from ..core import CaseResult, Family, Violation, pick
+from ..core import CaseResult, Family, HarnessError, Violation, pick
 from ..engines import memwire
 from ..engines.memwire import Pair, asyncssh
 from ..engines.refconn import RefConn
@@ -927,10 +928,52 @@ def run_hostkey(case) -> CaseResult:
     # the one IT negotiated from the same two lists
     ref = RefPeer('client', hostkey_algs=[a.encode() for a in client_list])
     conn = RefConn(ref)
-    link = RefLink(ref, {'server_host_keys': skeys})
+    # one options object for every connection of a listener, as
+    # asyncssh.listen() has it
+    shared = asyncssh.SSHServerConnectionOptions(
+        **memwire.default_server_options(server_host_keys=skeys,
+                                         server_factory=memwire.PwServer))
+    link = RefLink(ref, options=shared)
 
     try:
         link.start()
+
+        if case.get('other'):
+            # between this client's KEXINIT and its first key exchange
+            # message another client of the same listener negotiates other
+            # host key algorithms - to completion
+            labels.append('other-client-in-between')
+
+            for _ in range(8):
+                link.flush()
+                carried_kexinit = ref.kexinit_sent
+                link.h.deliver('c')
+                link.h.settle()
+
+                if carried_kexinit:
+                    # the server has this client's KEXINIT (and made its
+                    # choices); its own KEXINIT is still on the wire, so
+                    # the client cannot go on yet
+                    break
+
+                link.h.deliver('s')
+                link.h.settle()
+            else:
+                raise HarnessError('C03 hostkey: KEXINIT never went out')
+            ref2 = RefPeer('client',
+                           hostkey_algs=[a.encode() for a in case['other']])
+            link2 = RefLink(ref2, options=shared)
+
+            try:
+                link2.start()
+                link2.pump()
+
+                if ref2.first_kex_done:
+                    labels.append('other-client-completed')
+            finally:
+                link2.close()
+                asyncio.set_event_loop(link.h.loop)
+
         link.pump()
 
         if want is None:
@@ -972,6 +1015,17 @@ def hostkey_cases(tier: str):
                     yield {'peer': peer, 'server_keys': keys,
                            'client_algs': list(client)}
 
+    # a second client of the same listener in between (the RSA algorithms
+    # share one key, so its choice could rub off)
+    rsa = ['rsa-sha2-256', 'rsa-sha2-512', 'ssh-rsa']
+
+    for keys in (['rsa'], ['ed25519', 'rsa']):
+        for mine in rsa:
+            for other in rsa + ['ssh-ed25519']:
+                if other != mine:
+                    yield {'peer': 'ref-client', 'server_keys': keys,
+                           'client_algs': [mine], 'other': [other]}
+
 
 FAMILIES = [
     Family('control', run_edit, enumerate=control_cases, exhaustive=True,
@@ -1006,6 +1060,8 @@ FAMILIES = [
            case_timeout=120),
     Family('hostkey', run_hostkey, enumerate=hostkey_cases, exhaustive=True,
            required={'all': ['first-choice', 'later-choice', 'no-common',
+                             'other-client-in-between',
+                             'other-client-completed',
                              'peer:asyncssh', 'peer:ref-client']},
            case_timeout=120),
     Family('prefs', run_prefs, strategy=prefs_strategy,
